@@ -490,7 +490,7 @@ def rules(chk: Check) -> None:
     # zero-expected lints over both classes (NaN guards effective, no shared default objects); tiny bracket offsets point inward
     from .shared import defensive_idioms_effective, bracket_offsets_inward
     chk.stage(defensive_idioms_effective, chk, "R15.9", ("hydrodynamics", "hydrodynamicsTemplateModel"))
-    chk.stage(bracket_offsets_inward, chk, "R15.9", ("hydrodynamics", "hydrodynamicsTemplateModel"), 4)
+    chk.stage(bracket_offsets_inward, chk, "R15.9", ("hydrodynamics", "hydrodynamicsTemplateModel"), 1)
     # both solvers are dimensionally homogeneous in the nucleation temperature (agreement 'for every Tn over five decades')
     from ..dimtable import TABLE
     from ..kinds import KindInference
@@ -514,3 +514,5 @@ def rules(chk: Check) -> None:
     chk.floor("R15.2", 17)
     chk.floor("R15.3", 12)
     chk.floor("R15.8", 6)
+    # the bound maxAl returns without a sign change (decides between a solution and the runaway sentinel in the template's findvwLTE: shared with C05 R05.9)
+    chk.stage(c05.r05_9, Remap(chk, {"R05.9": "R15.8"}))
